@@ -24,7 +24,7 @@ VARIABLES l, env, img, wr, bad
 None == [e |-> "none"]
 G(gj) == [min |-> gj.min, size |-> gj.size, org |-> gj.org, vox |-> gj.vox]
 ExamOf(x) == ExamProj(x)
-EnvOf(r) == [native |-> r.native, defPT |-> r.defPT, defNM |-> r.defNM, defOther |-> r.defOther]
+EnvOf(r) == [native |-> r.native, defPT |-> r.defPT, defNM |-> r.defNM, defOther |-> r.defOther, db |-> r.db]
 
 (* identifiers of the known findings (known_findings.jsonl) *)
 K_ROUNDINT == "C10-roundint"        \* convert_range rounds through int: UINT/LONG/ULONG values beyond 2^31 steps overflow
